@@ -563,6 +563,52 @@ def gen_twins(rng, gen='G-exec-twins', odd=False):
     return cfg, run
 
 
+def gen_over_susp(rng, gen='G-exec-over-susp'):
+    """overcommitted pool in which a write-out is in flight while the running containers come close to the capacity:
+    container S (two operators, the first holding a fixed amount) is suspended at its operator boundary with a large
+    allocation (a write-out of many ticks); containers R grow meanwhile to a total that fits the pool on its own but
+    not together with what S held when it was suspended. Sometimes the running total does cross the capacity (a
+    justified kill), mostly it stays just below"""
+    tps = rng.choice([2, 10])
+    cap = rng.choice([40, 100, 200])
+    pipes, segs = [], []
+
+    def seg(t, m):
+        return dict(baseline_cpu_seconds=float(t) / tps, cpu_scaling='const', storage_read_gb=0.0, memory_gb=float(m))
+    ms = cap * rng.choice([0.3, 0.4, 0.5])
+    t1 = rng.randint(1, 4)
+    pipes.append((3, [[], [0]]))
+    segs.append([[seg(t1, ms)], [seg(rng.randint(2, 6), 1)]])
+    nr = rng.randint(1, 3)
+    total_hi = cap * rng.choice([0.7, 0.8, 0.9, 0.95, 1.0, 1.0, 1.1])
+    for k in range(nr):
+        hi = total_hi / nr
+        pipes.append((rng.choice([1, 2, 3]), [[]]))
+        segs.append([[seg(t1 + rng.randint(1, 3), 1), seg(rng.randint(8, 30), hi), seg(rng.randint(1, 4), 1)]])
+    cfg = dict(gen=gen, tps=tps, over=1, multi=1, npools=1, cpu=16, ram=cap, pipes=pipes, segs=segs, ticks=[], bad=None)
+    run = ExecRun(cfg)
+    first = run.w.first
+    alloc_s = cap * rng.choice([0.6, 0.8, 1.0])
+    t0 = dict(susp=[], asg=[([0, 1], 1, alloc_s, 3, 0)] +
+              [([first[k]], 1, rng.choice([cap, cap * 0.8, max(total_hi / nr, cap * 0.5)]), pipes[k][0], 0)
+               for k in range(1, nr + 1)])
+    cfg['ticks'].append(t0)
+    run.step(t0)
+    done = False
+    for _ in range(70):
+        t = dict(susp=[], asg=[])
+        if not done:
+            for c in run.ex.pools[0].active_containers:
+                if run.cid(c) == 0 and c.can_suspend_container():
+                    t['susp'].append((0, 0))
+                    done = True
+        cfg['ticks'].append(t)
+        ent = run.step(t)
+        if ent['err'] or not (ent['pools'][0]['active'] or ent['pools'][0]['suspending']):
+            break
+    return cfg, run
+
+
 def gen_burst(rng, gen='G-exec-burst'):
     """overcommitted pool, 3-8 containers started together whose demand jumps in the same tick to different
     levels (and different allocations), so that the pool-level killer needs several victims among many
